@@ -29,9 +29,9 @@ Proof.
   intros Hw Hi Ha. unfold handle_rx. rewrite (ascii_existsb data Ha).
   destruct (starts s_CMD (firstn (Z.to_nat ctrl_recv_size) data)) eqn:Es; cbn [negb].
   - cbv zeta. fold (tokens w data). pose proof (parse_cmd_inv w i (tokens w data) draws Hw Hi) as Hinv.
-    destruct (parse_cmd w i (tokens w data) draws) as [[w' r] d']. destruct Hinv as [_ [_ Hnc]].
+    destruct (parse_cmd w i (tokens w data) draws) as [[w' r] d']. destruct Hinv as [Hw' [_ Hnc]].
     destruct (tokens w data) as [|verb args] eqn:Et; [exfalso; exact (split_sp_nonempty _ _ Et)|].
-    destruct r as [rc extra| |]; [| |congruence]; (split; [discriminate|]); intros _; cbn [hd tl].
+    destruct r as [rc extra| |]; [| |congruence]; (split; [discriminate|]); intros _; cbn [hd tl]; rewrite (send_reply w' i _ Hw').
     + exists verb, args, rc, extra. split; reflexivity.
     + exists verb, args, (-1), []. split; [reflexivity|]. rewrite app_nil_r. reflexivity.
   - split; [auto|discriminate].
